@@ -14,9 +14,9 @@ import hypothesis
 from .. import harness, keypool
 from ..refpgp import wire, keys as rkeys, sig as rsig, grammar
 
-RULE = ('RuleBasedStateMachine over a universe of 7 certificates x 2 halves (shared names "Alice"/"Bob", shared comments "work"/"home", shared '
+RULE = ('RuleBasedStateMachine over a universe of 8 certificates x 2 halves (shared names "Alice"/"Bob", shared comments "work"/"home", names and a comment made only of hexadecimal digits, shared '
         'e-mail addresses, two user ids on one key, keys with encryption and signing subkeys, one key without comment/e-mail): rules load(half, form in '
-        'object/binary/armored/temp file/list/tuple) and unload(by any identifier of a loaded key); after every step fingerprints() (and its four '
+        'object/binary/armored/temp file/list/tuple), unload(by any identifier of a loaded key) and unload of a single subkey selected by its own identifier; after every step fingerprints() (and its four '
         'filtered forms), len(), and for EVERY identifier of the universe (fingerprints with/without spaces, key ids, short ids, names, comments, '
         'e-mails, subkey ids) membership and key() are compared with the model: a carried identifier selects a loaded key that carries it, any '
         'other raises KeyError; key(signature)/key(message) select the issuer / a recipient. Plus exhaustive enumeration of all operation sequences '
@@ -33,6 +33,8 @@ UNIVERSE = [
     ('ecdsa-p256-1', ('Bob (home) <bob@example.org>',), (('ed25519-publead0', 0x02), ('cv25519-1', 0x0C))),
     ('ecdsa-p384-0', ('Alice (work) <alice@example.org>',), ()),
     ('dsa1024-0', ('Dave (work) <dave@example.org>',), (('ecdh-p256-0', 0x0C),)),
+    # names and a comment made of hexadecimal digits only (they look like key ids to anything that guesses)
+    ('ecdsa-p521-0', ('Abe Dee (cafe) <abe@example.org>', 'Ada'), ()),
 ]
 FORMS = ['object', 'binary', 'armored', 'file', 'list', 'tuple']
 
@@ -94,6 +96,7 @@ class State(object):
         import pgpy
         self.kr = pgpy.PGPKeyring()
         self.loaded = []          # list of [index, half] per loaded primary instance (multiset)
+        self.dropped = {}         # (index, half) -> set of subkey numbers unloaded on their own (only while that index is loaded once)
         self.objects = {}         # (index, half) -> PGPKey object used for 'object' form loads
         self.ops = []
         self.tmp = None
@@ -110,6 +113,9 @@ def apply(state, op):
     state.ops.append(op)
     if op[0] == 'load':
         _, i, half, form = op
+        if any(k[0] == i for k in state.dropped):
+            state.ops.pop()
+            return 'skipped'          # keeps the model exact: a certificate with an individually unloaded subkey stays the only instance of itself
         blob = U.blobs[(i, half)]
         import pgpy
         if form == 'object':
@@ -138,6 +144,22 @@ def apply(state, op):
         want = {U.info[i]['fp']} | set(U.info[i]['subs'])
         if {str(x) for x in got} != want:
             raise AssertionError('load-return-value: %r != %r' % (sorted(str(x) for x in got), sorted(want)))
+    elif op[0] == 'unload_sub':
+        # the documented select-then-unload idiom with an identifier that resolves to a subkey: only that subkey goes
+        ident = op[1]
+        car = [c for c in U.carriers(ident) if c[1] > 0 and sum(1 for x in state.loaded if x[0] == c[0]) == 1
+               and c[1] not in state.dropped.get((c[0], [x for x in state.loaded if x[0] == c[0]][0][1]), set())]
+        if len(car) != 1 or len({c[0] for c in U.carriers(ident) if any(x[0] == c[0] for x in state.loaded)}) != 1:
+            state.ops.pop()
+            return 'skipped'
+        with state.kr.key(ident) as k:
+            target = k
+        if target.is_primary:
+            raise AssertionError('subkey-identifier-selects-primary: %r' % ident)
+        i, j = car[0]
+        half = [x for x in state.loaded if x[0] == i][0][1]
+        state.kr.unload(target)
+        state.dropped.setdefault((i, half), set()).add(j)
     else:
         ident = op[1]
         with state.kr.key(ident) as k:
@@ -149,6 +171,7 @@ def apply(state, op):
         idx = [n for n, inf in enumerate(U.info) if inf['fp'] == fp][0]
         state.kr.unload(target)
         state.loaded.remove([idx, half])
+        state.dropped.pop((idx, half), None)
         for key_, obj in list(state.objects.items()):
             if obj is target:
                 del state.objects[key_]
@@ -163,13 +186,17 @@ def check(state):
     n_objs = 0
     by_half = {'pub': set(), 'sec': set()}
     prim, subs = set(), set()
+    gone = set()
     for i, half in state.loaded:
         inf = U.info[i]
-        model_fps |= {inf['fp']} | set(inf['subs'])
-        n_objs += 1 + len(inf['subs'])
-        by_half[half] |= {inf['fp']} | set(inf['subs'])
+        drop = state.dropped.get((i, half), set())
+        gone |= {(i, j) for j in drop}
+        live = [f for j, f in enumerate(inf['subs'], 1) if j not in drop]
+        model_fps |= {inf['fp']} | set(live)
+        n_objs += 1 + len(live)
+        by_half[half] |= {inf['fp']} | set(live)
         prim.add(inf['fp'])
-        subs |= set(inf['subs'])
+        subs |= set(live)
     got = {str(f) for f in kr.fingerprints()}
     if got != model_fps:
         out.append(('fingerprints', 'fingerprints() %d vs model %d: extra %r missing %r' % (len(got), len(model_fps), sorted(got - model_fps)[:2], sorted(model_fps - got)[:2])))
@@ -181,7 +208,7 @@ def check(state):
             out.append(('fingerprints-filter', '%r: %r vs %r' % (kw, sorted(g)[:3], sorted(want)[:3])))
     loaded_idx = {i for i, _ in state.loaded}
     for ident in U.identifiers:
-        car = {c for c in U.carriers(ident) if c[0] in loaded_idx}
+        car = {c for c in U.carriers(ident) if c[0] in loaded_idx and c not in gone}
         try:
             inn = ident in kr
         except Exception as e:   # noqa
@@ -245,6 +272,8 @@ def check_selectors(state):
             got, err = None, 'KeyError'
         except Exception as e:   # noqa
             got, err = None, repr(e)
+        if any(k_[0] == idx for k_ in state.dropped):
+            continue          # the addressed subkey may be the one that was unloaded on its own: nothing is asserted
         if idx in loaded_idx:
             if got != issuer_fp and got != U.info[idx]['fp']:
                 out.append(('selector-' + name, 'issuer/recipient loaded but key(%s) -> %s %s' % (name, got, err)))
@@ -259,7 +288,8 @@ def run_ops(ops, rec=None, selectors=True):
     try:
         for n, op in enumerate(ops):
             try:
-                apply(st_, op)
+                if apply(st_, op) == 'skipped':
+                    continue
             except KeyError as e:
                 return [('step', 'unload-keyerror', 'step %d %r: %r' % (n, op, e))]
             except AssertionError as e:
@@ -277,10 +307,10 @@ def run_ops(ops, rec=None, selectors=True):
 
 
 def record_history(rec, ops, res):
-    unloads = [i for i, o in enumerate(ops) if o[0] == 'unload']
+    unloads = [i for i, o in enumerate(ops) if o[0] in ('unload', 'unload_sub')]
     nt = bool(unloads) and unloads[0] < len(ops) - 1
     forms = {o[3] for o in ops if o[0] == 'load'}
-    rec.case(('hist', tuple(tuple(o) for o in ops)), nt, ['len/%d' % min(len(ops), 12), 'unloads/%d' % min(len(unloads), 5)] + ['form/' + f for f in forms],
+    rec.case(('hist', tuple(tuple(o) for o in ops)), nt, ['len/%d' % min(len(ops), 12), 'unloads/%d' % min(len(unloads), 5)] + ['form/' + f for f in forms] + (['subkey-unloaded-on-its-own'] if any(o[0] == 'unload_sub' for o in ops) else []),
              {'history': ops})
     for clause, cause, det in res:
         rec.finding(clause, cause, {'ops': ops}, det)
@@ -308,12 +338,23 @@ def make_machine(rec, budget):
                 return
             i, half = data.draw(st.sampled_from(sorted(self.s.loaded)))
             inf = U.info[i]
-            idents = sorted({inf['fp'], inf['fp'][-16:], inf['fp'][-8:]} | inf['aliases'] | set(inf['subs']))
+            drop = self.s.dropped.get((i, half), set())
+            idents = sorted({inf['fp'], inf['fp'][-16:], inf['fp'][-8:]} | inf['aliases'] | {f for j, f in enumerate(inf['subs'], 1) if j not in drop})
             self._do(['unload', data.draw(st.sampled_from(idents))])
+
+        @precondition(lambda self: any(U.info[i]['subs'] for i, _ in self.s.loaded))
+        @rule(data=st.data())
+        def unload_subkey(self, data):
+            if self.broken or budget.over():
+                return
+            i, half = data.draw(st.sampled_from(sorted(x for x in self.s.loaded if U.info[x[0]]['subs'])))
+            f = data.draw(st.sampled_from(U.info[i]['subs']))
+            self._do(['unload_sub', data.draw(st.sampled_from([f, f[-16:], f[-8:]]))])
 
         def _do(self, op):
             try:
-                apply(self.s, op)
+                if apply(self.s, op) == 'skipped':
+                    return
                 d = check(self.s) + check_selectors(self.s)
                 res = [('invariant', c, 'after step %d %r: %s' % (len(self.s.ops) - 1, op, det)) for c, det in d[:4]]
             except KeyError as e:
@@ -350,7 +391,8 @@ def w_exhaustive(arg):
     import itertools
     rec = harness.Rec()
     alpha = [['load', 0, 'pub', 'object'], ['load', 0, 'sec', 'binary'], ['load', 5, 'pub', 'binary'], ['load', 2, 'pub', 'object'],
-             ['unload', 'Alice'], ['unload', 'alice@example.org'], ['unload', 'work'], ['unload', universe().info[0]['fp'][-16:]]]
+             ['unload', 'Alice'], ['unload', 'alice@example.org'], ['unload', 'work'], ['unload', universe().info[0]['fp'][-16:]],
+             ['unload_sub', universe().info[0]['subs'][0][-16:]], ['load', 7, 'pub', 'armored'], ['unload', 'Ada']]
     n = 0
     for ln in range(1, L + 1):
         for seq in itertools.product(range(len(alpha)), repeat=ln):
@@ -363,7 +405,7 @@ def w_exhaustive(arg):
             if res and res[0][1] == 'unload-keyerror':
                 continue
             record_history(rec, ops, res)
-    rec.exhaustive['all operation sequences of length <= %d over an 8-operation alphabet' % L] = True
+    rec.exhaustive['all operation sequences of length <= %d over an 11-operation alphabet' % L] = True
     return rec
 
 
